@@ -156,6 +156,7 @@ class HarnessGen:
         info = self.lw.fn_info[self.fn]
         spec = self.spec
         bufs = {b[0]: b[1] for b in spec.get('buffers', [])}
+        buf_et = {b[0]: b[2] for b in spec.get('buffers', []) if len(b) > 2}
         refs = set(spec.get('refs', []))
         L = self.lines
         for (t, g) in self.ghosts:
@@ -192,7 +193,7 @@ class HarnessGen:
                 L.append('  __CPROVER_assume(%s);' % deimply(r))
                 early.add(r)
         for nm, t in later:
-            et = t.deref()
+            et = t.deref() if nm not in buf_et else self.lw.ctype(buf_et[nm])
             cnt = bufs[nm]
             L.append('  __CPROVER_assume((%s) <= %d);' % (cnt, self.K))
             L.append('  %s = malloc(((__CPROVER_size_t)(%s)) * sizeof(%s));' % (t.decl(nm, keep_const=False), cnt, et.cast()))
@@ -222,7 +223,7 @@ class HarnessGen:
         rargs = []
         for nm, t, isref in info['params']:
             if nm in bufs:
-                et = t.deref()
+                et = t.deref() if nm not in buf_et else self.lw.ctype(buf_et[nm])
                 L.append('  %s = malloc(((size_t)(%s)) * sizeof(%s) + 1);' % (t.decl('r_' + nm, keep_const=False), bufs[nm], et.cast()))
                 L.append('  if ((%s) != 0) memcpy((void *)r_%s, %s, ((size_t)(%s)) * sizeof(%s));' % (bufs[nm], nm, nm, bufs[nm], et.cast()))
                 L.append('  r_%s = realloc((void *)r_%s, ((size_t)(%s)) * sizeof(%s));' % (nm, nm, bufs[nm], et.cast()))
@@ -257,7 +258,8 @@ class HarnessGen:
             for nm, t in objs:
                 L.append('  if (memcmp(&o_%s, &ro_%s, sizeof(o_%s)) != 0) { printf("QX-LOWERING-MISMATCH object %s\\n"); }' % (nm, nm, nm, nm))
             for nm, cnt in bufs.items():
-                L.append('  if ((%s) != 0 && memcmp(%s, r_%s, ((size_t)(%s)) * sizeof(*%s)) != 0) { printf("QX-LOWERING-MISMATCH buffer %s\\n"); }' % (cnt, nm, nm, cnt, nm, nm))
+                esz = ('sizeof(%s)' % self.lw.ctype(buf_et[nm]).cast()) if nm in buf_et else 'sizeof(*%s)' % nm
+                L.append('  if ((%s) != 0 && memcmp(%s, r_%s, ((size_t)(%s)) * %s) != 0) { printf("QX-LOWERING-MISMATCH buffer %s\\n"); }' % (cnt, nm, nm, cnt, esz, nm))
             L.append('#endif')
         else:
             L.append('#ifdef QX_NATIVE')
